@@ -14,7 +14,7 @@ def cnode(d):
         kind = f"(KTrain {cp(cn(d['train'][0]), cn(d['train'][1]))} {cp(cn(d['label'][0]), cn(d['label'][1]))})"
     else:
         kind = '(KApply ' + cl([cp(cn(s), cn(p)) for s, p in d['inputs']], 'nat * nat') + ')'
-    return f"(Node {cn(name_id(d['name']))} {cz(d.get('hp', 0))} {cn(d['gid'])} {cb(d['stateful'])} {cn(d['szout'])} {kind})"
+    return f"(Node {cn(name_id(d['name']))} {cz(-7 if d.get('hp', 0) is None else d.get('hp', 0))} {cn(d['gid'])} {cb(d['stateful'])} {cn(d['szout'])} {kind})"
 
 
 def py_eval(case):
